@@ -636,20 +636,22 @@ func (r *c19Runner) stepOnce(calls []*memds.Call) {
 	f := memds.FaultNone
 	fw := r.faults
 	if fw.Conflict+fw.Error+fw.CrashBefore+fw.CrashAfter > 0 {
-		x := rapid.IntRange(0, 999).Draw(r.t, "fault")
+		// rapid's integer generators favour the bounds of the range, so the fault bands sit in
+		// the middle of a wider range (0 = no fault is what cases shrink to).
+		x := rapid.IntRange(0, 9999).Draw(r.t, "fault") - 5000
 		switch {
-		case x < 1000-(fw.Conflict+fw.Error+fw.CrashBefore+fw.CrashAfter):
-		case x < 1000-(fw.Error+fw.CrashBefore+fw.CrashAfter):
+		case x < 0:
+		case x < 10*fw.Conflict:
 			if c.CAS {
 				f = memds.FaultConflict
 			}
-		case x < 1000-(fw.CrashBefore+fw.CrashAfter):
+		case x < 10*(fw.Conflict+fw.Error):
 			f = memds.FaultError
-		case x < 1000-fw.CrashAfter:
+		case x < 10*(fw.Conflict+fw.Error+fw.CrashBefore):
 			if r.crashes < fw.MaxCrashes {
 				f = memds.FaultCrashBefore
 			}
-		default:
+		case x < 10*(fw.Conflict+fw.Error+fw.CrashBefore+fw.CrashAfter):
 			if r.crashes < fw.MaxCrashes {
 				if c.Write {
 					f = memds.FaultCrashAfter
